@@ -964,6 +964,11 @@ def pure_ext(it, dotted, args, kw, n):
     if dotted == 'functools.partial':
         f0, a0, k0 = args[0], list(args[1:]), dict(kw)
         return Native(lambda it_, a2, k2, node: it_.call(f0, a0 + list(a2), {**k0, **k2}, node), 'functools.partial')
+    if dotted in ('functools.lru_cache', 'functools.cache', 'lru_cache', 'cache'):
+        # call form: lru_cache(maxsize=...)(f) / lru_cache(f) / cache(f)
+        if args and not isinstance(args[0], K):
+            return MemoFn(args[0])
+        return Native(lambda it_, a2, k2, node: MemoFn(a2[0]), dotted)
     if dotted in ('functools.wraps',):
         return Native(lambda it_, a2, k2, node: a2[0], 'functools.wraps')
     if dotted in ('itertools.chain.from_iterable',):
@@ -1203,6 +1208,48 @@ def ext_call(it, dotted, args, kw, n):
             return K(zlib.crc32(args[0].v))
         return Term('zlib.crc32', args[0])
     return Term('ext:' + dotted, *args, *[Term('kw', K(k), v) for k, v in sorted(kw.items())])
+
+
+class MemoFn:
+    """functools.lru_cache(...)(f): the result of an earlier call with equal arguments is returned again - equality being the arguments'
+    own __eq__, as the cache's dictionary lookup decides it; distinct symbolic arguments denote distinct keys"""
+    not_none = True
+
+    def __init__(self, f):
+        self.f, self.table = f, []
+
+    def abs_key(self):
+        return ('memo', id(self))
+
+    def abs_truth(self, it):
+        return True
+
+    def abs_call(self, it, args, kw, n):
+        def same(x, y):
+            r = it.cmp(ast.Eq(), x, y, n)
+            if isinstance(r, K):
+                return bool(r.v)
+            if getattr(it, 'INJECTIVE_KEYS', True):
+                return False
+            return it.truth(r, n)
+        for a0, k0, r0 in self.table:
+            if len(a0) == len(args) and sorted(k0) == sorted(kw) and all(same(x, y) for x, y in list(zip(a0, args)) + [(k0[k], kw[k]) for k in kw]):
+                return r0
+        r = it.call(self.f, list(args), dict(kw), n)
+        self.table.append((list(args), dict(kw), r))
+        return r
+
+    def abs_attr(self, it, a, n):
+        if a == 'cache_clear':
+            def clear(it_, args, kw, node):
+                self.table.clear()
+                return K(None)
+            return Native(clear, 'cache_clear')
+        if a == '__wrapped__':
+            return self.f
+        if a == 'cache_info':
+            return Native(lambda it_, args, kw, node: Sym('cache_info'), 'cache_info')
+        return None
 
 
 class ReObj:
